@@ -151,7 +151,9 @@ func (vm *VM) Processor_execute(psc *procbuilder.SimConfig, instruct <-chan int,
 		case 0:
 			resp <- procId
 		case 1:
+			verifYield(procId, 0)
 			result, err := vm.Processors[procId].Step(psc)
+			verifYield(procId, 1)
 			resp <- procId
 			if err == nil {
 				resultChan <- result
